@@ -10,6 +10,7 @@ TC = 'rodbus::client::task::TimeoutCounter'
 TCS = 'rodbus::client::task::TimeoutCounterState'
 RE = 'rodbus::error::RequestError'
 SLEEP_UNTIL = 'tokio::time::sleep::sleep_until'
+TIMEOUT_AT = 'tokio::time::timeout::timeout_at'
 
 
 @rule('C12', 'R12.1', 'one deadline per request: computed once after transmission from the request\'s own timeout, and the only timer raced')
@@ -19,6 +20,14 @@ def r1(c):
     c.saw(b, len(b.calls()))
     w = one(b.calls(WIRE_WRITE), 'write')
     add = [cs for cs in b.calls() if cs.declared == 'core::ops::arith::Add::add' and 'Instant' in (cs.callee or '')]
+    # a relative timer (timeout / sleep of a Duration) created inside the receive loop restarts with every frame that is
+    # skipped (round 7: three independent seeds rewrote the select! into `timeout(request.timeout, next_frame)`)
+    rel = [cs for cs in b.calls() if (cs.callee or '').startswith('tokio::time::') and not cs.callee.endswith('Instant::now')
+           and not cs.is_(SLEEP_UNTIL) and not (cs.callee or '').endswith('timeout_at') and b.in_cycle(cs.node)]
+    c.ob('timer/not-per-frame', not rel, 'no relative timer (timeout / sleep for a duration) is started inside the receive loop - a skipped frame must not move the deadline',
+         str(sorted({x.callee for x in rel})), rel[0].loc() if rel else loc_of(b))
+    if rel and not add:
+        return
     add = one(add, 'Instant + Duration')
     now = q.sem(b, add.args[0])
     to = q.sem(b, add.args[1])
@@ -27,6 +36,17 @@ def r1(c):
     c.ob('deadline/once', not b.in_cycle(add.node) and not b.in_cycle(now.cs.node if now.kind == 'call' else add.node), 'the deadline is computed once, outside the receive loop', '', add.loc())
     c.ob('deadline/after-write', q.dominated_by_any(b, q.outcomes(b, w).get('success', []), add.node), 'the deadline starts after the request was written successfully', '', add.loc())
     sl = b.calls(SLEEP_UNTIL)
+    ta = [cs for cs in b.calls() if cs.is_(TIMEOUT_AT)]
+    if len(ta) == 1 and not sl and len(ta[0].args) >= 2:
+        # second form of the same race: `timeout_at(deadline, next_frame(..)).await` inside the loop - the deadline is absolute,
+        # so a skipped frame does not move it
+        s = q.sem(b, ta[0].args[0])
+        c.ob('timer/deadline', s.kind == 'call' and s.cs is add, 'the only timer in the transaction is timeout_at(that deadline, ..)', repr(s), ta[0].loc())
+        others = [cs for cs in b.calls() if (cs.callee or '').startswith('tokio::time::') and cs is not ta[0] and not cs.callee.endswith('Instant::now')]
+        c.ob('timer/no-other', not others, 'no other tokio timer (timeout / sleep) is used in the transaction', str([x.callee for x in others]), loc_of(b))
+        fut = q._future_creator(b, ta[0].args[1])
+        c.ob('race', fut is not None and hasattr(fut, 'is_') and fut.is_(NEXT_FRAME), 'the future bounded by timeout_at(deadline, ..) is next_frame', '', ta[0].loc())
+        return
     oks = len(sl) == 1
     if oks:
         s = q.sem(b, sl[0].args[0])
@@ -49,7 +69,17 @@ def r2(c):
     b = P.fn(EXEC)
     sl = b.calls(SLEEP_UNTIL)
     sel = [s for s in q.select_sites(b) if sl and sl[0] in s['futures']]
+    ta = [cs for cs in b.calls() if cs.is_(TIMEOUT_AT)]
     for x, i, st in cons:
+        if P.logical_name(x) == EXEC and not sel and not sl and len(ta) == 1:
+            # timeout_at form: built only behind the Elapsed (Err) outcome of the awaited timeout_at
+            ee = q.outcomes(b, ta[0]).get('Err', [])
+            c.ob('timer-arm', bool(ee) and q.dominated_by_any(b, ee, ('b', i)), 'it is built on the Elapsed outcome of timeout_at(deadline, ..)', '%d Err edges' % len(ee), loc_of(b, i, stmt=st))
+            rs = b.reach_set(('b', i)) | {('b', i)}
+            xs = [y for y in q.exits(b) if y['node'] in rs]
+            c.ob('returned', bool(xs) and all(q.exit_is_failure(b, y) for y in xs), 'and from there the transaction can only end with an error (the timeout is what the caller gets)',
+                 '%d exits reachable' % len(xs), loc_of(b))
+            continue
         if P.logical_name(x) != EXEC or not sel:
             continue
         k = sel[0]['futures'].index(sl[0])
